@@ -13,6 +13,9 @@
 #include <vector>
 
 #include "ada.h"
+extern "C" {
+#include "ada_c.h"
+}
 
 namespace sim {
 
@@ -172,11 +175,12 @@ enum OpKind : uint8_t {
   OP_PATTERN = 6, // sub = ic | ptype<<1 | itype<<2 ; args: 9 pattern fields, 9 input fields
   OP_ORIGIN = 7,  // get_origin of the current object (blob: -> nested parse)
   OP_LIMIT = 8,   // args: decimal value  -> ada::set_max_input_length (administrator thread)
+  OP_CAPI = 9,    // sub = 0 url handle (args: input, base|none, host value|none), 1 idna (args: input), 2 search params (args: init, key, value)
   OP_KINDS
 };
 static const char* const kOpKindName[] = {"parse", "set",  "clear",   "canparse",
                                           "idna",  "usp",  "pattern", "origin",
-                                          "limit"};
+                                          "limit", "capi"};
 enum Setter : uint8_t {
   S_HREF, S_PROTOCOL, S_USERNAME, S_PASSWORD, S_HOST, S_HOSTNAME, S_PORT,
   S_PATHNAME, S_SEARCH, S_HASH, S_COUNT
@@ -560,6 +564,76 @@ inline std::string exec_usp(const Op& op) {
   return o;
 }
 
+// The C API (include/ada_c.h): thin wrappers, exercised so that state hidden inside them (a static return buffer, a
+// cached handle) is visible to the thread engine. Every owned object is released exactly once.
+inline std::string exec_capi(const Op& op) {
+  auto a = [&](size_t k) -> std::string_view {
+    return k < op.args.size() && op.args[k] ? std::string_view(*op.args[k]) : std::string_view();
+  };
+  auto has = [&](size_t k) { return k < op.args.size() && op.args[k].has_value(); };
+  auto sv = [](ada_string s) { return s.data ? std::string(s.data, s.length) : std::string("<null>"); };
+  std::string o;
+  switch (op.sub % 3) {
+    case 0: {
+      ada_url u = has(1) ? ada_parse_with_base(a(0).data(), a(0).size(), a(1).data(), a(1).size()) : ada_parse(a(0).data(), a(0).size());
+      bool can = has(1) ? ada_can_parse_with_base(a(0).data(), a(0).size(), a(1).data(), a(1).size()) : ada_can_parse(a(0).data(), a(0).size());
+      o += ada_is_valid(u) ? "valid|" : "invalid|";
+      o += can ? "can|" : "cannot|";
+      if (ada_is_valid(u)) {
+        if (has(2)) o += ada_set_host(u, a(2).data(), a(2).size()) ? "sethost=1|" : "sethost=0|";
+        ada_url c = ada_copy(u);
+        ada_set_hash(c, "copy", 4);
+        for (ada_string s : {ada_get_href(u), ada_get_protocol(u), ada_get_username(u), ada_get_password(u), ada_get_host(u),
+                             ada_get_hostname(u), ada_get_port(u), ada_get_pathname(u), ada_get_search(u), ada_get_hash(u)}) {
+          o += sv(s);
+          o += '\x1f';
+        }
+        ada_owned_string org = ada_get_origin(u);
+        o += std::string(org.data, org.length);
+        ada_free_owned_string(org);
+        o += '|';
+        o += sv(ada_get_href(c));
+        o += ada_has_credentials(u) ? "C" : "c";
+        o += ada_has_port(u) ? "P" : "p";
+        o += ada_has_hash(u) ? "H" : "h";
+        o += ada_has_search(u) ? "S" : "s";
+        ada_free(c);
+      }
+      ada_free(u);
+      break;
+    }
+    case 1: {
+      ada_owned_string x = ada_idna_to_ascii(a(0).data(), a(0).size());
+      ada_owned_string y = ada_idna_to_unicode(a(0).data(), a(0).size());
+      o += std::string(x.data ? x.data : "", x.length) + "|" + std::string(y.data ? y.data : "", y.length);
+      ada_free_owned_string(x);
+      ada_free_owned_string(y);
+      break;
+    }
+    default: {
+      ada_url_search_params p = ada_parse_search_params(a(0).data(), a(0).size());
+      ada_search_params_append(p, a(1).data(), a(1).size(), a(2).data(), a(2).size());
+      ada_search_params_sort(p);
+      ada_owned_string t = ada_search_params_to_string(p);
+      o += std::string(t.data, t.length) + "|" + std::to_string(ada_search_params_size(p)) + "|";
+      ada_free_owned_string(t);
+      o += sv(ada_search_params_get(p, a(1).data(), a(1).size())) + "|";
+      ada_strings all = ada_search_params_get_all(p, a(1).data(), a(1).size());
+      o += std::to_string(ada_strings_size(all)) + "|";
+      ada_free_strings(all);
+      ada_url_search_params_keys_iter it = ada_search_params_get_keys(p);
+      int nk = 0;
+      while (ada_search_params_keys_iter_has_next(it) && nk < 64) {
+        o += sv(ada_search_params_keys_iter_next(it)) + ",";
+        nk++;
+      }
+      ada_free_search_params_keys_iter(it);
+      ada_free_search_params(p);
+    }
+  }
+  return o;
+}
+
 // Called at the start of every operation step (hooks.cpp uses it to make the
 // decline decisions of one shortcut consistent within one operation).
 inline void (*g_step_begin)() = nullptr;
@@ -674,6 +748,11 @@ StepObs exec_op(const Op& op, Hist<U>& h) {
       ada::set_max_input_length(v);
       r.status = 'K';
       r.text = "K|limit=" + std::to_string(v);
+      return r;
+    }
+    case OP_CAPI: {
+      r.status = 'K';
+      r.text = "K|" + exec_capi(op);
       return r;
     }
     case OP_PATTERN: {
